@@ -282,7 +282,9 @@ type genPkt struct {
 var boundaryLens = []int{0, 1, 2, 253, 254, 255, 256, 257, 508, 509, 510, 511, 512, 763, 764, 765, 766, 767, 1019, 1020, 1021, 1022}
 
 func (r *Run) randIP() []byte {
-	switch r.Rng.Intn(6) {
+	switch r.Rng.Intn(8) {
+	case 6: // the unspecified address (4-octet and IPv4-mapped form), the limited broadcast address
+		return [][]byte{{0, 0, 0, 0}, append(append(make([]byte, 10), 0xff, 0xff), 0, 0, 0, 0), {255, 255, 255, 255}}[r.Rng.Intn(3)]
 	case 0:
 		return nil
 	case 1:
